@@ -281,7 +281,7 @@ func c12Gen(r *Rng, n int) []string {
 func init() {
 	register(&Prop{
 		ID:        "C12",
-		Ambient:   ambientQueryOpts,
+		Ambient:   append(append([]func(){}, ambientQueryOpts...), func() { mxj.SetFieldSeparator("|") }, func() { mxj.SetFieldSeparator("=") }, func() { mxj.SetArraySize(40) }),
 		Rule:      "Maps as for C07 (depth <= 3); 1-4 key pairs whose old parts are derived plain/wildcard/indexed paths and whose new parts come from a 10-path alphabet (so new paths frequently equal or extend one another); shorthand and malformed pairs; non-trivial = a non-empty Map was built; distinct = distinct op lines",
 		Gen:       c12Gen,
 		Exec:      c12Exec,
